@@ -344,11 +344,38 @@ fn verdict_cases(cw: &mut CaseWriter, seed: u64, n: usize) {
         let p = crate::bdlgen::gen_proj(&mut rng, &crate::bdlgen::GenOpts { rotated_spaces: i % 3 == 2, polygon_outlines: i % 2 == 1 });
         let text = crate::bdlgen::print_proj(&p);
         let lines: Vec<&str> = text.lines().collect();
+        // (first line, last line, type) of every block
+        let mut spans: Vec<(usize, usize, String)> = vec![];
+        for (k, l) in lines.iter().enumerate() {
+            let t = l.trim();
+            if t.starts_with('"') {
+                if let Some((_, ty)) = t.rsplit_once('=') {
+                    let ty = ty.trim();
+                    if !ty.is_empty() && ty.chars().all(|c| c.is_ascii_uppercase() || c == '-') {
+                        if let Some(e) = (k..lines.len()).find(|&m| lines[m].trim() == "..") {
+                            spans.push((k, e, ty.to_string()));
+                        }
+                    }
+                }
+            }
+        }
+        let mut types: Vec<String> = spans.iter().map(|s| s.2.clone()).collect();
+        types.sort();
+        types.dedup();
         for j in 0..20 {
             let (t2, label) = if j == 0 {
                 (Some(text.clone()), "intact".to_string())
             } else {
-                let li = rng.below(lines.len());
+                // stratified: a block type first, then a block of that type, then one of its lines — so that the rare kinds
+                // (shades, schedules, constructions, conditions) are damaged as often as walls and windows
+                let li = if j % 4 == 1 || spans.is_empty() {
+                    rng.below(lines.len())
+                } else {
+                    let ty = rng.pick(&types).clone();
+                    let of_type: Vec<&(usize, usize, String)> = spans.iter().filter(|sp| sp.2 == ty).collect();
+                    let sp = rng.pick(&of_type);
+                    sp.0 + rng.below(sp.1 - sp.0 + 1)
+                };
                 let kind = *rng.pick(&KINDS);
                 (damage(&lines, li, kind, text.len()), format!("{kind}@{li}"))
             };
@@ -508,7 +535,7 @@ pub fn run(args: &Args) -> i32 {
             "impl": {"class": class, "site": it.next(), "msg": it.next(), "count": n, "first_example": ex}}));
     }
     edge_cases(&mut cw, args.seed, if thorough { 4000 } else { 600 });
-    verdict_cases(&mut cw, args.seed, if thorough { 4000 } else { 400 });
+    verdict_cases(&mut cw, args.seed, if thorough { 4000 } else { 800 });
     cw.write(json!({"op": "noop", "label": "summary", "kind": "summary",
         "impl": {"files": fs.len(), "lines": counts.iter().sum::<usize>(), "stride": stride, "outcomes": totals, "by_edit_and_file_kind": per_kind,
                  "exhaustive": stride == 1}}));
